@@ -147,7 +147,7 @@ def graph_job(prop, executor, classes, tier, scale, quick, thorough, label, conf
     c.update({k: str(v) for k, v in cfg.items()})
     job = dict(engine="pbt", executor=executor, config=config, gen="graph", cfg=c, cases=_n(tier, quick, thorough, scale, floor), shards=8 if tier == "quick" else 16,
                max_size=max_size or (60 if tier == "quick" else 100), label=label)
-    if cfg.get("ring_pct") or cfg.get("big_pct") or "dense_auto" in str(cfg.get("extra", "")):
+    if cfg.get("ring_pct") or cfg.get("big_pct") or cfg.get("noshrink") or "dense_auto" in str(cfg.get("extra", "")):
         job["extra"] = dict(noshrink=1)  # single cases take seconds; a failing one is reported as generated
     return job
 
@@ -181,8 +181,9 @@ def jobs_C10(tier, scale):
 def jobs_C11(tier, scale):
     q = tier == "quick"
     cl = _classes(["DS", "US", "DL", "UL"], ["int"])
-    jobs = [graph_job("C11", "bfs", cl, tier, scale, 4000, 150000, "generated graphs n<=10 (cycles through the source, loops, components, ties); 2.4% of the cases repeat a search after 2^8-1 or 2^16-1 other searches", nmax=10, max_size=60,
-                       wrap_permille=24),
+    jobs = [graph_job("C11", "bfs", cl, tier, scale, 4000, 150000, "generated graphs n<=10 (cycles through the source, loops, components, ties)", nmax=10, max_size=60),
+            graph_job("C11", "bfs", cl, tier, scale, 96, 2400, "a validated search repeated after 2^8-1 (7 of 8 cases) or 2^16-1 other searches that never reach its source", nmin=2, nmax=9, max_size=60,
+                      wrap_permille=1000, noshrink=1),
             graph_job("C11", "bfs", cl, tier, scale, 1000, 30000, "generated graphs whose neighbour lists hold repeated entries (forced duplicates): predecessor lists and path sets still without repeats",
                       nmax=8, forced=15, max_size=60),
             graph_job("C11", "bfs", cl, tier, scale, 1200, 30000, "each case in a fresh process: the same edge list searched as three classes (other directedness, other label type) in a generated order",
@@ -198,8 +199,10 @@ def jobs_C11(tier, scale):
 def jobs_C12(tier, scale):
     q = tier == "quick"
     cl = _classes(["DW", "UW"])
-    jobs = [graph_job("C12", "dij", cl, tier, scale, 4000, 100000, "generated graphs n<=12, integer weights 0..16 (exact); 2.4% of the cases repeat a search after 2^8-1 or 2^16-1 other searches", nmax=12, xmax=17,
-                      extra="wmode int", max_size=60, wrap_permille=24, sets=12),
+    jobs = [graph_job("C12", "dij", cl, tier, scale, 4000, 100000, "generated graphs n<=12, integer weights 0..16 (exact), weights also set through setEdgeWeight", nmax=12, xmax=17,
+                      extra="wmode int", max_size=60, sets=12),
+            graph_job("C12", "dij", cl, tier, scale, 96, 2400, "a validated search repeated after 2^8-1 (7 of 8 cases) or 2^16-1 other searches that never reach its source", nmin=2, nmax=9, xmax=17,
+                      extra="wmode int", max_size=60, wrap_permille=1000, noshrink=1),
             graph_job("C12", "dij", cl, tier, scale, 2000, 60000, "generated graphs, weights k/8 (exact)", nmax=10, xmax=4096, extra="wmode frac", max_size=60),
             graph_job("C12", "dij", cl, tier, scale, 1500, 40000, "generated graphs, weights k*2^-60 (exact, all below machine epsilon)", nmax=10, xmax=17, extra="wmode tiny", max_size=60),
             graph_job("C12", "dij", cl, tier, scale, 1000, 30000, "generated graphs, weights k*2^40 (exact)", nmax=10, xmax=17, extra="wmode huge", max_size=60),
@@ -223,7 +226,9 @@ def jobs_C19(tier, scale):
             fam("dij", _classes(["DW", "UW"]), 600, 12000, "the same families with all-zero, all-one and varying weights: Dijkstra scans <= V+E+1"),
             fam("dij", _classes(["DW", "UW"]), 300, 6000, "hub improved m times with fan-out L, non-dyadic weights (stale queue entries must relax nothing)", families="fanin"),
             graph_job("C19", "dij", _classes(["DW", "UW"]), tier, scale, 800, 20000, "random weighted graphs, weights k/7 (not exactly representable)", nmax=30, xmax=40, extra="wmode rounded", max_size=100),
-            graph_job("C19", "bfs", _classes(["DS", "US"]), tier, scale, 1500, 40000, "random graphs n<=40; pair searches before every counted search; 2.4% of the cases count after 2^8-1 or 2^16-1 other searches", nmax=40, max_size=100, wrap_permille=24),
+            graph_job("C19", "bfs", _classes(["DS", "US"]), tier, scale, 1500, 40000, "random graphs n<=40; pair searches before every counted search", nmax=40, max_size=100),
+            graph_job("C19", "bfs", _classes(["DS", "US"]), tier, scale, 64, 1600, "the counted searches after 2^8-1 (7 of 8 cases) or 2^16-1 other searches", nmin=2, nmax=12, max_size=60,
+                      wrap_permille=1000, noshrink=1),
             graph_job("C19", "dij", _classes(["DW", "UW"]), tier, scale, 1500, 40000, "random weighted graphs n<=30, weights 0..4 (ties and zero-weight cycles), also set through setEdgeWeight", nmax=30, xmax=5, extra="wmode int", max_size=100, sets=10)] + (
         [] if tier == "quick" else [fuzz_job("dij", "wgraph", "C19", tier, scale, 0, 6000000, "guided search: libFuzzer climbs scans/(V+E+1) through __libfuzzer_extra_counters", max_len=300)])
 
@@ -292,6 +297,8 @@ def c17_streams(tier, scale):
     # the sanitizers and the agreement of the observations across builds are the oracle
     hist("anyseq", "C17", _classes(ALL8, ["int", "string"]),
          dict(add=40, add1=6, recip=4, rm=12, rmk=6, setl=8, setm=8, setw=8, rmloops=4, rmvtx=6, clear=2, resize=4, dedup=4, churn=1, xcopy=4), n(2400, 40000), force=35, safety_only=1)
+    # the same on the multigraphs alone, where a removal on a duplicated pair leaves a list entry without multiplicity record
+    hist("anyseqM", "C17", _classes(["DM", "UM"]), dict(add=30, add1=10, rm=14, rmk=14, setm=22, rmloops=3, rmvtx=4, dedup=4, resize=3, xcopy=2), n(1600, 30000), force=40, safety_only=1)
     st.append(dict(name="C06", executor="eq", gen="eq", cfg=jobs_C06(tier, scale)[0]["cfg"], cases=n(1200, 20000), max_size=35))
     st.append(dict(name="C11", executor="bfs", gen="graph", cfg=dict(prop="C11", classes=_classes(["DS", "US", "DL", "UL"], ["int"]), nmax="9"), cases=n(800, 15000), max_size=50))
     st.append(dict(name="C12", executor="dij", gen="graph", cfg=dict(prop="C12", classes=_classes(["DW", "UW"]), nmax="12", xmax="17", extra="wmode int"), cases=n(800, 15000), max_size=50))
